@@ -1,6 +1,8 @@
 package extractor
 
 import (
+	"fmt"
+
 	"github.com/grafov/m3u8"
 	"github.com/internetarchive/Zeno/pkg/models"
 )
@@ -12,6 +14,14 @@ func IsM3U8(URL *models.URL) bool {
 
 func M3U8(URL *models.URL) (assets []*models.URL, err error) {
 	defer URL.RewindBody()
+
+	// grafov/m3u8 dereferences a nil segment on some playlists (e.g. EXT-X-KEY or EXT-X-MAP before the
+	// first EXTINF); a bad playlist must only cost its own links, not the process
+	defer func() {
+		if r := recover(); r != nil {
+			assets, err = nil, fmt.Errorf("panic while parsing M3U8: %v", r)
+		}
+	}()
 
 	var rawAssets ([]string)
 
